@@ -1,13 +1,22 @@
 ---- MODULE YieldTrace ----
-(* V phase of C26: Cases are (TLC-generated or captured flow, what the REAL linearize_to_subroutines *)
-(* returned for it, projected to data). TLC runs the product machine of YieldMachine.tla on them.   *)
-EXTENDS YieldMachine, Json, IOUtils
+(* V phase of C26: Obs are (TLC-generated or captured flow, what the REAL linearize_to_subroutines *)
+(* returned for it, projected to data). TLC runs the product machine of YieldMachine.tla on them:  *)
+(* one initial state per record, all condition-outcome sequences explored.                         *)
+EXTENDS Yield, Json, IOUtils
+VARIABLES c, sk, loc, spent
 Obs == JsonDeserialize(IOEnv.VERIF_OBS)
-\* every record linearized without an exception? (records with outcome # "ok" carry subs = <<>>)
+M == INSTANCE YieldMachine WITH Cases <- Obs, Budget <- 0
+Spec == M!Spec
+\* the real function returned (records with outcome # "ok" carry subs = <<>>)
 Linearized == Obs[c].outcome = "ok"
+SameEvents == Linearized => M!SameEvents
+LabelsAreConsecutive == M!LabelsAreConsecutive
+AllTargetsExist == M!AllTargetsExist
+StackBounded == M!StackBounded
 \* non-vacuity counters
 NCond == Cardinality({n \in 1..Len(Obs) : CountKind(Obs[n].flow, {"ift", "iff", "while", "for"}) > 0})
 NYield == Cardinality({n \in 1..Len(Obs) : CountKind(Obs[n].flow, {"yield"}) > 0})
 NMulti == Cardinality({n \in 1..Len(Obs) : Len(Obs[n].subs) > 1})
-ASSUME PrintT(<<"@@PRINT@@ counters", Len(Obs), NCond, NYield, NMulti>>)
+NNontrivial == Cardinality({n \in 1..Len(Obs) : CountKind(Obs[n].flow, {"ift", "iff", "while", "for"}) > 0 /\ Len(Flatten(Obs[n].subs)) > 1})
+ASSUME PrintT(<<"@@PRINT@@ counters", Len(Obs), NCond, NYield, NMulti, NNontrivial>>)
 ====
